@@ -1409,15 +1409,22 @@ func (c *compiler) VisitBinaryExpr(e *ast.BinaryExpr) ast.VisitResult {
 		log10_base := c.cbb.NewCall(c.functions["log10"].irFunc, rhs)
 		c.latestReturn = c.cbb.NewFDiv(log10_num, log10_base)
 		c.latestReturnType = c.ddpfloattyp
-	case ast.BIN_LOGIC_AND:
-		c.latestReturn = c.cbb.NewAnd(lhs, rhs)
-		c.latestReturnType = c.ddpinttyp
-	case ast.BIN_LOGIC_OR:
-		c.latestReturn = c.cbb.NewOr(lhs, rhs)
-		c.latestReturnType = c.ddpinttyp
-	case ast.BIN_LOGIC_XOR:
-		c.latestReturn = c.cbb.NewXor(lhs, rhs)
-		c.latestReturnType = c.ddpinttyp
+	case ast.BIN_LOGIC_AND, ast.BIN_LOGIC_OR, ast.BIN_LOGIC_XOR:
+		// two Bytes give a Byte, every other combination of Zahl and Byte is computed as Zahl
+		if lhsTyp == c.ddpbytetyp && rhsTyp == c.ddpbytetyp {
+			c.latestReturnType = c.ddpbytetyp
+		} else {
+			lhs, rhs = c.floatOrByteAsInt(lhs, lhsTyp), c.floatOrByteAsInt(rhs, rhsTyp)
+			c.latestReturnType = c.ddpinttyp
+		}
+		switch e.Operator {
+		case ast.BIN_LOGIC_AND:
+			c.latestReturn = c.cbb.NewAnd(lhs, rhs)
+		case ast.BIN_LOGIC_OR:
+			c.latestReturn = c.cbb.NewOr(lhs, rhs)
+		case ast.BIN_LOGIC_XOR:
+			c.latestReturn = c.cbb.NewXor(lhs, rhs)
+		}
 	case ast.BIN_MOD:
 		if lhsTyp == c.ddpbytetyp && rhsTyp == c.ddpbytetyp {
 			c.latestReturn = c.cbb.NewURem(lhs, rhs)
@@ -1427,11 +1434,11 @@ func (c *compiler) VisitBinaryExpr(e *ast.BinaryExpr) ast.VisitResult {
 			c.latestReturnType = c.ddpinttyp
 		}
 	case ast.BIN_LEFT_SHIFT:
-		c.latestReturn = c.cbb.NewShl(lhs, rhs)
-		c.latestReturnType = c.ddpinttyp
+		// the shift amount must have the width of the shifted value
+		c.latestReturn = c.cbb.NewShl(lhs, c.numericCast(rhs, rhsTyp, lhsTyp))
 		c.latestReturnType = lhsTyp
 	case ast.BIN_RIGHT_SHIFT:
-		c.latestReturn = c.cbb.NewLShr(lhs, rhs)
+		c.latestReturn = c.cbb.NewLShr(lhs, c.numericCast(rhs, rhsTyp, lhsTyp))
 		c.latestReturnType = lhsTyp
 	case ast.BIN_EQUAL:
 		c.compare_values(lhs, rhs, lhsTyp)
